@@ -16,7 +16,7 @@ pub static C11: C11P = C11P;
 
 type Handle = TypedFunc<NoCtx, fn(i32) -> i32>;
 
-fn live_by_tag() -> BTreeMap<i32, usize> {
+pub fn live_by_tag() -> BTreeMap<i32, usize> {
     host::track(|h| {
         let mut m = BTreeMap::new();
         for t in h.live.values() {
@@ -36,7 +36,7 @@ fn tagged_closure(tag: i32) -> impl Fn() -> i32 + Send + Sync + 'static {
     }
 }
 
-fn build_runtime(k: i32) -> Runtime<NoCtx> {
+pub fn build_runtime(k: i32) -> Runtime<NoCtx> {
     let mut lib = Library::new();
     lib.add(Type::clone::<Val<Tz>>("Tz", "", location!()).unwrap().into());
     lib.add(Function::new("mkz", "", vec![], || -> Val<Tz> { Val(Tz::new()) }, location!()).unwrap().into());
@@ -71,7 +71,7 @@ fn build_runtime(k: i32) -> Runtime<NoCtx> {
     Runtime::from_lib(lib).expect("runtime")
 }
 
-fn script(v: i32) -> String {
+pub fn script(v: i32) -> String {
     format!(
         "const K: Tr = mk({});\nconst Z: Tz = mkz();\nfn f(x: i32) -> i32 {{\n    x * {v} + K.tag() + REG.tag() + host() + host_a() - host_b()\n}}\nfn other(x: i32) -> i32 {{\n    K.tag() - x\n}}\n",
         300 + v
